@@ -68,3 +68,27 @@ Theorem C02_pointwise_commutes_with_transpose : forall (A B : Type) (f : A -> B)
   teq (tmap f (transpose p x)) (transpose p (tmap f x)).
 Proof. exact (@tmap_transpose). Qed.
 Print Assumptions C02_pointwise_commutes_with_transpose.
+
+(* ---- one pass verified end to end: remove_redundant_casts_ir (model in theories/CastPass.v, tied to the
+        real pass by differential run).  One iteration of its while-changed loop, and the loop, refine the graph
+        for EVERY annotated SSA graph whose declared dtypes are true and whose inputs are well typed; the
+        decision it consults is the translated one proved in C17. *)
+From J2O Require Import Dtype CastSem CastPass.
+
+Theorem C02_cast_step_sound :
+  forall (sem : string -> list nat -> list ttensor -> option (list ttensor)),
+    (forall op ats vs vs' o, Forall2 tteq vs vs' -> sem op ats vs = Some o -> exists o', sem op ats vs' = Some o' /\ Forall2 tteq o o') ->
+    (forall op ats vs o, Forall wt vs -> sem op ats vs = Some o -> Forall wt o) ->
+    (forall t vs o, sem "Cast"%string [t] vs = Some o -> exists x d, vs = [x] /\ dtype_of_code (Z.of_nat t) = Some d /\ o = [tcast d x]) ->
+  forall g g' e, admissible sem g e -> cast_step g = Some g' -> refines ttensor tteq sem (to_graph g) (to_graph g') e.
+Proof. exact cast_step_sound. Qed.
+Print Assumptions C02_cast_step_sound.
+
+Theorem C02_cast_pass_sound :
+  forall (sem : string -> list nat -> list ttensor -> option (list ttensor)),
+    (forall op ats vs vs' o, Forall2 tteq vs vs' -> sem op ats vs = Some o -> exists o', sem op ats vs' = Some o' /\ Forall2 tteq o o') ->
+    (forall op ats vs o, Forall wt vs -> sem op ats vs = Some o -> Forall wt o) ->
+    (forall t vs o, sem "Cast"%string [t] vs = Some o -> exists x d, vs = [x] /\ dtype_of_code (Z.of_nat t) = Some d /\ o = [tcast d x]) ->
+  forall fuel g e, admissible_along sem fuel g e -> refines ttensor tteq sem (to_graph g) (to_graph (cast_pass fuel g)) e.
+Proof. exact cast_pass_sound. Qed.
+Print Assumptions C02_cast_pass_sound.
